@@ -109,6 +109,36 @@ Estimate(rows, o, pi, sel, i, j) ==
        [] o.model = "k2p" -> K2P(Ratio(mc.ts, mc.total), Ratio(mc.tv, mc.total), o.gamma, a)
        [] o.model = "f84" -> F84(Ratio(mc.ts, mc.total), Ratio(mc.tv, mc.total), pi, o.gamma, a)
        [] o.model = "tn93" -> TN93(Ratio(mc.ag, mc.total), Ratio(mc.ct, mc.total), Ratio(mc.tv, mc.total), pi, o.gamma, a)
+\* the arguments of the logarithms (of the powers, with gamma) of the pair's estimate.  An argument that is zero up to
+\* rounding puts the pair ON the saturation boundary: the sign of the computed argument - hence defined-and-huge versus
+\* undefined - depends on the order of floating-point operations, so both outcomes are a correct answer for such a pair.
+LogArgs(rows, o, pi, sel, i, j) ==
+  LET s1 == rows[i]  s2 == rows[j]
+      dc == DiffCounts(s1, s2, sel, o.wts, 0, FALSE)
+      mc == MutCounts(s1, s2, sel, o.wts)
+      p  == Ratio(dc.diff, dc.total)
+      P  == Ratio(mc.ts, mc.total)  Q == Ratio(mc.tv, mc.total)
+  IN CASE o.model = "jc" -> <<FSub(One, FMul(FRat(4, 3), p))>>
+       [] o.model = "f81" -> LET B == FSub(One, FSum([k \in 1..4 |-> FMul(pi[k], pi[k])])) IN <<FSub(One, FDiv(p, B))>>
+       [] o.model = "k2p" -> <<FSub(FSub(One, FMul(FInt(2), P)), Q), FSub(One, FMul(FInt(2), Q))>>
+       [] o.model = "f84" ->
+            LET piR == FAdd(pi[1], pi[3])  piY == FAdd(pi[2], pi[4])
+                A == FAdd(FDiv(FMul(pi[1], pi[3]), piR), FDiv(FMul(pi[2], pi[4]), piY))
+                B == FAdd(FMul(pi[1], pi[3]), FMul(pi[2], pi[4]))
+                C == FMul(piR, piY)
+            IN <<FSub(FSub(One, FDiv(P, FMul(FInt(2), A))), FDiv(FMul(FSub(A, B), Q), FMul(FMul(FInt(2), A), C))),
+                 FSub(One, FDiv(Q, FMul(FInt(2), C)))>>
+       [] o.model = "tn93" ->
+            LET piR == FAdd(pi[1], pi[3])  piY == FAdd(pi[2], pi[4])
+                ag == FMul(pi[1], pi[3])  ct == FMul(pi[2], pi[4])
+                P1 == Ratio(mc.ag, mc.total)  P2 == Ratio(mc.ct, mc.total)
+            IN <<FSub(FSub(One, FDiv(FMul(piR, P1), FMul(FInt(2), ag))), FDiv(Q, FMul(FInt(2), piR))),
+                 FSub(FSub(One, FDiv(FMul(piY, P2), FMul(FInt(2), ct))), FDiv(Q, FMul(FInt(2), piY))),
+                 FSub(One, FDiv(Q, FMul(FInt(2), FMul(piR, piY))))>>
+       [] OTHER -> <<>>
+ArgEps == FParse("1e-12")
+OnBoundary(rows, o, pi, sel, i, j) ==
+  LET a == LogArgs(rows, o, pi, sel, i, j) IN \E k \in DOMAIN a : FIsFinite(a[k]) /\ FLt(FAbs(a[k]), ArgEps)
 \* the pair's observed proportion of differing sites, as the model counts them (all disjoint-set differences for JC69 / F81;
 \* transitions + transversions for the two-parameter families)
 PDist(rows, o, sel, i, j) ==
@@ -129,30 +159,49 @@ RangeErr(r, n) == r[1] >= 0 /\ r[2] >= 0 /\ r[3] >= 0 /\ r[4] >= 0 /\ (r[1] > (I
 Tol == FParse("1e-9")
 Eps == FParse("1e-12")
 \* e = [rows, o, r, kind, m]: m = matrix of decimal strings
-MatrixChecks(e) ==
+\* bnd: the pairs on the saturation boundary (see LogArgs); {} on the first evaluation
+MatrixChecksWith(e, useBnd) ==
   LET rows == e.rows  n == Len(rows)  o == e.o
       sel == SelectedSites(rows, o.rmgaps)
       pi  == IF o.model \in {"f81", "f84", "tn93"} THEN Strict(Freqs(rows, sel, o.wts)) ELSE <<>>
       pairs == {<<i, j>> \in (1..n) \X (1..n) : i < j /\ InRange(e.r, i, j)}
       est == Strict([p \in pairs |-> Estimate(rows, o, pi, sel, p[1], p[2])])
       obs(i, j) == FParse(e.m[i][j])
-      defd == {p \in pairs : Defined(est[p])}
+      bnd == IF useBnd THEN {p \in pairs : OnBoundary(rows, o, pi, sel, p[1], p[2])} ELSE {}
+      defd == {p \in pairs \ bnd : Defined(est[p])}
       maxd == IF defd = {} THEN FInt(0) ELSE FoldLeft(LAMBDA acc, p : FMax(acc, est[p]), FInt(0), SetToSeq(defd))
-      subst == FMul(FInt(2), maxd)
+      \* the substitute is twice the largest defined entry; a boundary pair the code found defined takes part in that maximum
+      substs == {FMul(FInt(2), maxd)} \cup {FMul(FInt(2), FMax(maxd, obs(k[1], k[2]))) : k \in {k \in bnd : FIsFinite(obs(k[1], k[2]))}}
   IN [shape     |-> Len(e.m) = n /\ \A i \in 1..n : Len(e.m[i]) = n,
       symmetric |-> \A i, j \in 1..n : e.m[i][j] = e.m[j][i] \/ (FIsNaN(obs(i, j)) /\ FIsNaN(obs(j, i))),
       diag      |-> \A i \in 1..n : FEq(obs(i, i), FInt(0)),
       outOfRange |-> \A i, j \in 1..n : (i # j /\ ~InRange(e.r, i, j)) => FEq(obs(i, j), FInt(0)),
       entry     |-> \A p \in defd : FClose(obs(p[1], p[2]), est[p], Tol, Eps),
-      undefinedClass |-> \A p \in pairs \ defd :
+      undefinedClass |-> \A p \in (pairs \ defd) \ bnd :
                            \/ FIsNaN(obs(p[1], p[2]))
-                           \/ (FLt(FInt(0), maxd) /\ FClose(obs(p[1], p[2]), subst, Tol, Eps))
+                           \/ \E sb \in substs : FLt(FInt(0), sb) /\ FClose(obs(p[1], p[2]), sb, Tol, Eps)
                            \/ (FIsFinite(est[p]) /\ FLt(est[p], FInt(0)) /\ FLt(FNeg(Eps), est[p]))      \* rounding noise below zero
                            \/ (NoCountedDiff(rows, o, sel, p[1], p[2]) /\ FEq(obs(p[1], p[2]), FInt(0))),   \* no difference: 0 whatever the frequencies
+      \* a pair on the boundary: undefined, or a (large) distance - never below the observed proportion of differences
+      boundaryClass |-> \A p \in bnd : FIsNaN(obs(p[1], p[2])) \/ FLe(FSub(PDist(rows, o, sel, p[1], p[2]), Tol), obs(p[1], p[2])),
       \* (an estimate that is undefined for the whole alignment - degenerate base frequencies - stays undefined)
       zeroWhenEqual |-> \A p \in pairs : NoCountedDiff(rows, o, sel, p[1], p[2]) =>
                            (FEq(obs(p[1], p[2]), FInt(0)) \/ (FIsNaN(est[p]) /\ FIsNaN(obs(p[1], p[2])))),
       geP       |-> Corrected(o.model) => \A p \in defd : FIsFinite(obs(p[1], p[2])) =>
                                              FLe(FSub(PDist(rows, o, sel, p[1], p[2]), Tol), obs(p[1], p[2]))]
+\* the boundary pairs are only looked for when the plain reading fails (they are rare; finding them costs as much as the estimates)
+MatrixChecks(e) ==
+  LET c0 == MatrixChecksWith(e, FALSE) IN
+  IF \A k \in DOMAIN c0 : c0[k] THEN c0 ELSE MatrixChecksWith(e, TRUE)
+\* relations between two matrices of one alignment: is the pair (i, j) of the BASE rows one whose value is not stable
+\* under a reordering of the floating-point operations (on the boundary, or substituted while some pair is on the boundary)?
+UnstablePair(rows, o, i, j) ==
+  LET n == Len(rows)
+      sel == SelectedSites(rows, o.rmgaps)
+      pi  == IF o.model \in {"f81", "f84", "tn93"} THEN Strict(Freqs(rows, sel, o.wts)) ELSE <<>>
+      pairs == {<<a, b>> \in (1..n) \X (1..n) : a < b}
+      bnd == {p \in pairs : OnBoundary(rows, o, pi, sel, p[1], p[2])}
+      lo == IF i < j THEN i ELSE j   hi == IF i < j THEN j ELSE i
+  IN i # j /\ Corrected(o.model) /\ bnd # {} /\ (<<lo, hi>> \in bnd \/ ~Defined(Estimate(rows, o, pi, sel, lo, hi)))
 EncodableRows(rows) == \A r \in 1..Len(rows) : \A l \in 1..Len(rows[r]) : Encodable(rows[r][l])
 =============================================================================
